@@ -246,6 +246,22 @@ class Ctx:
         return bad
 
     def validate(self, module, records, driver=None, cfg=None, **kw):
+        every = int(os.environ.get("VERIF_CORRUPT", "0") or 0)
+        if every:
+            # binding demonstration: one observed field of every k-th record is altered before validation;
+            # the walk must reject (nearly) all of them.  Nothing here is used by a registered check.
+            hit = corrupt_records(records, every, self.rng)
+            bad = self._validate_raw(module, records, cfg, **kw)
+            rej = {id(r) for r, _ in bad}
+            b = self.binding = getattr(self, "binding", {"corrupted": 0, "rejected": 0, "missed": []})
+            for r, path in hit:
+                b["corrupted"] += 1
+                if id(r) in rej:
+                    b["rejected"] += 1
+                elif len(b["missed"]) < 12:
+                    b["missed"].append("%s %s" % (r.get("op"), path))
+            self.binding_false = getattr(self, "binding_false", 0) + sum(1 for r, _ in bad if "_x" not in r or not r["_x"].get("corrupted"))
+            return bad
         bad = self._validate_raw(module, records, cfg, **kw)
         self.records_count = getattr(self, "records_count", 0) + len(records)
         # keep light-weight statistics, not the records themselves
@@ -267,6 +283,48 @@ class Ctx:
             self.rejected.append({"record": rec, "clause": clause, "module": module, "driver": driver, "cfg": cfg, "env": kw.get("env")})
         self.log("validated %d records with %s: %d rejected" % (len(records), module, len(bad)))
         return bad
+
+
+OBSERVED_KEYS = ("out", "obs", "ret", "events", "observer", "bytes", "msgs", "others", "after")
+
+
+def _leaves(v, path, acc):
+    if isinstance(v, bool) or isinstance(v, int) or (isinstance(v, str) and len(v) >= 1):
+        acc.append(path)
+    elif isinstance(v, list):
+        for i, x in enumerate(v):
+            _leaves(x, path + [i], acc)
+    elif isinstance(v, dict):
+        for k, x in v.items():
+            _leaves(x, path + [k], acc)
+
+
+def corrupt_records(records, every, rng):
+    """Alter one observed leaf (bool flipped, int + 1, character replaced) in every k-th record, in place."""
+    hit = []
+    for idx, r in enumerate(records):
+        if idx % every:
+            continue
+        acc = []
+        for k in OBSERVED_KEYS:
+            if k in r and not (k == "out" and r.get("ok") is False):     # the result of a call that raised is not an observation
+                _leaves(r[k], [k], acc)
+        if not acc:
+            continue
+        path = rng.choice(acc)
+        cur = r
+        for part in path[:-1]:
+            cur = cur[part]
+        v = cur[path[-1]]
+        if isinstance(v, bool):
+            cur[path[-1]] = not v
+        elif isinstance(v, int):
+            cur[path[-1]] = v + 1
+        else:
+            cur[path[-1]] = ("b" if v[0] == "#" else "#") + v[1:] if v[0] in "#b" else ("D" if v[0] == "C" else "C") + v[1:]
+        r.setdefault("_x", {})["corrupted"] = path
+        hit.append((r, "/".join(map(str, path))))
+    return hit
 
 
 def _shorten(r, lim=600):
@@ -495,6 +553,11 @@ def main(argv=None):
             ctx.rule = "replay of " + a.replay
         else:
             mod.run(ctx)
+        if os.environ.get("VERIF_CORRUPT"):
+            b = getattr(ctx, "binding", {"corrupted": 0, "rejected": 0, "missed": []})
+            print("BINDING %s: %d of %d corrupted records rejected (uncorrupted records rejected: %d); not rejected e.g. %s" %
+                  (pid, b["rejected"], b["corrupted"], getattr(ctx, "binding_false", 0), "; ".join(b["missed"][:6])))
+            return 0
         rc = finish(ctx)
     except Machinery as e:
         print("MACHINERY-FAILURE property=%s: %s" % (pid, e))
